@@ -63,10 +63,17 @@ Definition arch_step (x86 : bool) (mnem : string) (ops : list iop) (rho rho' : r
   exists cf d v, (cf = 0 \/ cf = 1) /\ arch_effect x86 mnem ops rho cf = Some (d, v) /\
                  rho' d = v /\ forall r, r <> d -> rho' r = rho r.
 
-(* an instruction with base write-back (AArch64 pre-/post-index) and no tracked operation: the base is bumped by the
-   immediate, the other destination registers change arbitrarily, nothing else changes *)
+(* AArch64 pre-index [b, #k]! on an instruction without tracked operation: the base is bumped by the immediate, the other
+   destination registers change arbitrarily, nothing else changes *)
 Definition wb_step (dests : list string) (b : string) (k : Z) (rho rho' : regfile) : Prop :=
   rho' b = rho b + k /\ forall r, ~ In r dests -> rho' r = rho r.
+
+(* AArch64 post-index [b], #v in two steps: the access (base still unchanged, the other destination registers change
+   arbitrarily) and then the bump of the base (by the immediate; by an unknown amount for a register post-index) *)
+Definition access_step (dests : list string) (b : string) (rho rho_mid : regfile) : Prop :=
+  rho_mid b = rho b /\ forall r, ~ In r dests -> rho_mid r = rho r.
+Definition bump_step (b : string) (p : ipost) (rho_mid rho' : regfile) : Prop :=
+  (forall r, r <> b -> rho' r = rho_mid r) /\ match p with PostImm v => rho' b = rho_mid b + v | _ => True end.
 
 (* an instruction without tracked operation and without write-back: only destination registers change *)
 Definition plain_step (dests : list string) (rho rho' : regfile) : Prop :=
@@ -95,9 +102,14 @@ Fixpoint matches (pat : list pat1) (ops : list iop) : Prop :=
   | _, _ => False
   end.
 
+(* no reported origin is another reported register: the dict may be applied entry by entry (see update_changes_describes) *)
+Definition safe_origin_dict (l : rc_dict) : Prop :=
+  forall reg st nm, In (reg, Some st) l -> o_name st = Some nm -> nm = reg \/ ~ In nm (map fst l).
+
 Definition entry_sound (e : op_entry) : Prop :=
   forall ops, matches (oe_pat e) ops ->
   exists l, get_reg_changes true (pattern_dests (oe_pat e) ops) ops (Some (entry_of e)) false = RcOk l /\
+            safe_origin_dict l /\
             forall rho rho', arch_step (oe_x86 e) (oe_mnem e) ops rho rho' -> changes_describe l rho rho'.
 
 (* the instruction is in the vocabulary of arch_effect: the soundness statement is not vacuous *)
@@ -162,6 +174,14 @@ Ltac solve_entry :=
   split_names;
   (eexists; split;
    [ unfold get_reg_changes, pattern_dests, entry_of; norm_eqb; reflexivity
+   | split;
+   [ let reg := fresh "reg" in let st := fresh "st" in let nm := fresh "nm" in
+     let HIn := fresh "HIn" in let Hn := fresh "Hn" in let HH := fresh "HH" in
+     intros reg st nm HIn Hn; cbn in HIn;
+     repeat (destruct HIn as [HIn|HIn]; [inversion HIn; subst; clear HIn|]); try contradiction;
+     cbn in Hn; inversion Hn; subst;
+     first [ left; reflexivity
+           | right; cbn; intros HH; repeat (destruct HH as [HH|HH]; [congruence|]); contradiction ]
    | let rho := fresh "rho" in let rho' := fresh "rho'" in
      let cf := fresh "cf" in let d := fresh "d" in let v := fresh "v" in
      let Hcf := fresh "Hcf" in let He := fresh "He" in let Hd := fresh "Hd" in let Ho := fresh "Ho" in
@@ -178,4 +198,459 @@ Ltac solve_entry :=
               end;
        try rewrite Hd; lia
      | let r := fresh "r" in let Hr := fresh "Hr" in
-       intros r Hr; apply Ho; intros ->; apply Hr; cbn; auto ] ]).
+       intros r Hr; apply Ho; intros ->; apply Hr; cbn; auto ] ] ]).
+
+(* ---------------------------------------------------------------- general facts about the returned dict *)
+Lemma dedup_spec seen l x : In x (dedup seen l) <-> In x l /\ ~ In x seen.
+Proof.
+  revert seen. induction l as [|y l IH]; intros seen; cbn [dedup].
+  - cbn. tauto.
+  - destruct (existsb (String.eqb y) seen) eqn:E.
+    + apply existsb_exists in E. destruct E as (z & Hz & Ez). apply String.eqb_eq in Ez. subst z.
+      rewrite IH. cbn. split; [tauto|]. intros [[->|H] N]; [contradiction|tauto].
+    + assert (Ny : ~ In y seen).
+      { intros H. assert (existsb (String.eqb y) seen = true) by (apply existsb_exists; exists y; split; [exact H|apply String.eqb_refl]). congruence. }
+      cbn [In]. rewrite IH. cbn [In]. split.
+      * intros [->|[H N]]; [tauto|]. split; [tauto|]. intros H'. apply N. right. exact H'.
+      * intros [[->|H] N]; [tauto|]. destruct (string_dec y x) as [->|Ne]; [tauto|]. right. split; [exact H|]. intros [E'|H']; [congruence|contradiction].
+Qed.
+
+Lemma dedup_nodup seen l : NoDup (dedup seen l).
+Proof.
+  revert seen. induction l as [|y l IH]; intros seen; cbn [dedup]; [constructor|].
+  destruct (existsb (String.eqb y) seen); [apply IH|]. constructor; [|apply IH].
+  rewrite dedup_spec. cbn. tauto.
+Qed.
+
+Lemma change_dict_keys dests nm st : map fst (change_dict dests nm st) = dedup [] dests.
+Proof. unfold change_dict. rewrite map_map. cbn [fst]. apply map_id. Qed.
+
+(* registers that are not destinations are never reported; every destination is, once *)
+Theorem rc_keys dests ops isa l :
+  get_reg_changes true dests ops isa false = RcOk l ->
+  NoDup (map fst l) /\ forall r, In r (map fst l) <-> In r dests.
+Proof.
+  unfold get_reg_changes. cbn [negb].
+  destruct (pre_loop (has_operation isa) ops ([], [])) as [acc|]; [|discriminate].
+  match goal with |- match ?a with _ => _ end = _ -> _ => destruct a as [[nm st]|] end; [|discriminate].
+  intros H. inversion H; subst. rewrite change_dict_keys. split; [apply dedup_nodup|].
+  intros r. rewrite dedup_spec. cbn. tauto.
+Qed.
+
+(* operands without write-back: not pre-indexed, no post-index dict on an operand with a base *)
+Definition no_wb (o : iop) : bool :=
+  match o with
+  | IMem _ _ true _ => false
+  | IMem (Some _) _ _ (PostImm _) => false
+  | IMem (Some _) _ _ PostOther => false
+  | _ => true
+  end.
+Definition no_postdict (o : iop) : bool :=
+  match o with IMem (Some _) _ _ (PostImm _) => false | IMem (Some _) _ _ PostOther => false | _ => true end.
+
+Lemma pre_loop_skip h ops rest acc : forallb no_wb ops = true -> pre_loop h (ops ++ rest) acc = pre_loop h rest acc.
+Proof.
+  induction ops as [|o ops IH]; intros H; [reflexivity|]. cbn [forallb] in H. apply andb_true_iff in H. destruct H as [Ho H].
+  cbn [app pre_loop]. destruct o as [| |[b|] off [|] [|v|]|]; try discriminate; cbn; apply IH; exact H.
+Qed.
+
+Lemma no_op_after isa (nmst : names * opstate) ops :
+  has_operation isa = false ->
+  match isa with
+  | Some e => match rc_op e with
+              | Some code => bind (op_loop (rc_dst e) 0 ops nmst) (fun a => bind (exec_stmts (snd a) code) (fun st' => Ok (fst a, st')))
+              | None => Ok nmst end
+  | None => Ok nmst end = Ok nmst.
+Proof. intros Hop. destruct isa as [e|]; [|reflexivity]. cbn in Hop. destruct (rc_op e); [discriminate|reflexivity]. Qed.
+
+(* no operation in the ISA entry (or no entry), no write-back: every destination register is unknown *)
+Theorem rc_no_operation dests ops isa :
+  has_operation isa = false -> forallb no_wb ops = true ->
+  get_reg_changes true dests ops isa false = RcOk (map (fun r => (r, None)) (dedup [] dests)).
+Proof.
+  intros Hop Hpre. unfold get_reg_changes. cbn [negb]. rewrite Hop.
+  rewrite <- (app_nil_r ops), pre_loop_skip by exact Hpre. cbn [pre_loop].
+  rewrite no_op_after by exact Hop. reflexivity.
+Qed.
+
+Theorem rc_no_operation_sound dests ops isa rho rho' :
+  has_operation isa = false -> forallb no_wb ops = true -> plain_step dests rho rho' ->
+  exists l, get_reg_changes true dests ops isa false = RcOk l /\ changes_describe l rho rho'.
+Proof.
+  intros Hop Hpre Hstep. eexists. split; [apply rc_no_operation; assumption|]. split.
+  - intros reg c HIn. apply in_map_iff in HIn. destruct HIn as (r & E & _). inversion E; subst. exact I.
+  - intros r Hr. apply Hstep. intros HIn. apply Hr. rewrite map_map. cbn [fst]. rewrite map_id. apply dedup_spec. cbn. tauto.
+Qed.
+
+(* one pre-indexed memory operand [b, #k]! : the base is reported as b + k, the other destination registers are unknown *)
+Theorem rc_preindexed dests pre suf isa b k :
+  has_operation isa = false -> forallb no_wb pre = true -> forallb no_wb suf = true ->
+  get_reg_changes true dests (pre ++ IMem (Some b) (OffImm (Some k)) true PostFalse :: suf) isa false =
+  RcOk (map (fun r => (r, if String.eqb r b then Some (mkO (Some b) (Some k)) else None)) (dedup [] dests)).
+Proof.
+  intros Hop Hpre Hsuf. unfold get_reg_changes. cbn [negb]. rewrite Hop.
+  rewrite pre_loop_skip by exact Hpre. cbn [pre_loop bind is_postdict].
+  rewrite <- (app_nil_r suf), pre_loop_skip by exact Hsuf. cbn [pre_loop].
+  rewrite no_op_after by exact Hop. unfold change_dict. f_equal. apply map_ext. intros r. cbn [nm_get].
+  destruct (String.eqb r b); reflexivity.
+Qed.
+
+Theorem rc_preindexed_sound dests pre suf isa b k rho rho' :
+  has_operation isa = false -> forallb no_wb pre = true -> forallb no_wb suf = true ->
+  wb_step dests b k rho rho' ->
+  exists l, get_reg_changes true dests (pre ++ IMem (Some b) (OffImm (Some k)) true PostFalse :: suf) isa false = RcOk l /\
+            changes_describe l rho rho'.
+Proof.
+  intros Hop Hpre Hsuf (Hb & Hother). eexists. split; [apply rc_preindexed; assumption|]. split.
+  - intros reg c HIn. apply in_map_iff in HIn. destruct HIn as (r & E & _). inversion E; subst.
+    destruct (String.eqb_spec reg b); [subst|exact I]. eexists _, _. cbn. repeat split. exact Hb.
+  - intros r Hr. apply Hother. intros HIn. apply Hr. rewrite map_map. cbn [fst]. rewrite map_id. apply dedup_spec. cbn. tauto.
+Qed.
+
+(* one post-indexed memory operand [b], #v (or [b], xm): in the full dict the base is reported UNCHANGED (it is bumped
+   after the access), the other destination registers are unknown *)
+Theorem rc_postindexed_main dests pre suf isa b off p :
+  has_operation isa = false -> forallb no_wb pre = true -> forallb no_wb suf = true -> is_postdict p = true ->
+  get_reg_changes true dests (pre ++ IMem (Some b) off false p :: suf) isa false =
+  RcOk (map (fun r => (r, if String.eqb r b then Some (mkO (Some b) (Some 0)) else None)) (dedup [] dests)).
+Proof.
+  intros Hop Hpre Hsuf Hp. unfold get_reg_changes. cbn [negb]. rewrite Hop.
+  rewrite pre_loop_skip by exact Hpre. cbn [pre_loop bind]. rewrite Hp. cbn [fst snd nm_set st_set].
+  rewrite <- (app_nil_r suf), pre_loop_skip by exact Hsuf. cbn [pre_loop].
+  rewrite no_op_after by exact Hop. unfold change_dict. f_equal. apply map_ext. intros r. cbn [nm_get].
+  destruct (String.eqb r b); reflexivity.
+Qed.
+
+(* only_postindexed=True: the first memory operand with a base and a post-index dict: b + v, or unknown *)
+Lemma find_post_skip ops rest : forallb no_postdict ops = true -> find_post (ops ++ rest) = find_post rest.
+Proof.
+  induction ops as [|o ops IH]; intros H; [reflexivity|]. cbn [forallb] in H. apply andb_true_iff in H. destruct H as [Ho H].
+  cbn [app find_post]. destruct o as [| |[b|] off p [|v|]|]; try discriminate; apply IH; exact H.
+Qed.
+
+Definition post_dict (b : string) (p : ipost) : rc_dict :=
+  match p with PostImm v => [(b, Some (mkO (Some b) (Some v)))] | _ => [(b, None)] end.
+
+Theorem rc_postindexed dests pre suf isa b off pr p :
+  forallb no_postdict pre = true -> is_postdict p = true ->
+  get_reg_changes true dests (pre ++ IMem (Some b) off pr p :: suf) isa true = RcOk (post_dict b p).
+Proof.
+  intros H Hp. unfold get_reg_changes. cbn [negb]. rewrite find_post_skip by exact H.
+  destruct p; [discriminate| |]; reflexivity.
+Qed.
+
+Theorem rc_postindexed_none dests ops isa :
+  forallb no_postdict ops = true -> get_reg_changes true dests ops isa true = RcOk [].
+Proof. intros H. unfold get_reg_changes. cbn [negb]. rewrite <- (app_nil_r ops), find_post_skip by exact H. reflexivity. Qed.
+
+(* a line without mnemonic (label, directive, comment) changes nothing *)
+Theorem rc_no_mnemonic dests ops isa post : get_reg_changes false dests ops isa post = RcOk [].
+Proof. reflexivity. Qed.
+
+(* ---------------------------------------------------------------- the dict of ONE instruction, applied change by change *)
+(* KernelDG._update_reg_changes walks the dict sequentially although the instruction changes its registers at once.
+   That is sound when no reported origin is another reported register (no swap inside one instruction). *)
+Definition safe_origin (cs : list (string * change)) : Prop :=
+  forall reg nm v, In (reg, Some (nm, v)) cs -> nm = reg \/ ~ In nm (map fst cs).
+
+Definition changes_hold (cs : list (string * change)) (rho rho' : regfile) : Prop :=
+  (forall reg c, In (reg, c) cs -> match c with Some (nm, v) => rho' reg = rho nm + v | None => True end) /\
+  (forall r, ~ In r (map fst cs) -> rho' r = rho r).
+
+Theorem update_changes_describes cs : forall s rho0 rho rho',
+  NoDup (map fst cs) -> safe_origin cs -> changes_hold cs rho rho' ->
+  describes s rho0 rho -> describes (update_changes s cs) rho0 rho'.
+Proof.
+  induction cs as [|[reg c] cs IH]; intros s rho0 rho rho' ND SO (Hc & Hother) D.
+  - cbn. intros r. specialize (D r). rewrite (Hother r) by (intros []). exact D.
+  - cbn [update_changes fold_left fst snd]. cbn [map fst] in ND. inversion ND as [|? ? Nreg ND']; subst.
+    set (rho1 := fun r => if String.eqb r reg then rho' reg else rho r).
+    assert (A : apply_change rho reg c rho1).
+    { split.
+      - intros r Hr. unfold rho1. destruct (String.eqb_spec r reg); [contradiction|reflexivity].
+      - specialize (Hc reg c (or_introl eq_refl)). destruct c as [[nm v]|]; [|exact I].
+        unfold rho1. rewrite String.eqb_refl. exact Hc. }
+    apply (IH (update_one s reg c) rho0 rho1 rho' ND').
+    + intros r nm v HIn. destruct (SO r nm v (or_intror HIn)) as [E|N]; [left; exact E|right].
+      intros H. apply N. cbn. right. exact H.
+    + split.
+      * intros r c' HIn. specialize (Hc r c' (or_intror HIn)). destruct c' as [[nm v]|]; [|exact I].
+        assert (Rn : rho1 nm = rho nm).
+        { unfold rho1. destruct (String.eqb_spec nm reg) as [->|]; [|reflexivity].
+          destruct (SO r reg v (or_intror HIn)) as [E|N].
+          - subst r. exfalso. apply Nreg. apply in_map_iff. exists (reg, Some (reg, v)). split; [reflexivity|exact HIn].
+          - exfalso. apply N. cbn. left. reflexivity. }
+        rewrite Rn. exact Hc.
+      * intros r Hr. unfold rho1. destruct (String.eqb_spec r reg) as [->|Ne]; [reflexivity|].
+        apply Hother. cbn. intros [E|H]; [congruence|contradiction].
+    + apply (update_one_describes s rho0 rho rho1 reg c D A).
+Qed.
+
+(* from the dict of the model to the `change` list Model/Deps.v consumes *)
+
+Lemma to_changes_spec l rho rho' :
+  changes_describe l rho rho' ->
+  exists cs, to_changes l = Some cs /\ map fst cs = map fst l /\ changes_hold cs rho rho' /\
+             (safe_origin_dict l -> safe_origin cs).
+Proof.
+  intros (Hc & Hother). revert Hc Hother.
+  assert (G : (forall reg c, In (reg, c) l ->
+                 match c with Some st => exists nm v, o_name st = Some nm /\ o_value st = Some v /\ rho' reg = rho nm + v | None => True end) ->
+              exists cs, to_changes l = Some cs /\ map fst cs = map fst l /\
+                (forall reg c, In (reg, c) cs -> match c with Some (nm, v) => rho' reg = rho nm + v | None => True end) /\
+                (forall reg nm v, In (reg, Some (nm, v)) cs -> exists st, In (reg, Some st) l /\ o_name st = Some nm)).
+  { induction l as [|[k c] l IH]; intros Hc.
+    - exists []. cbn. repeat split; intros; contradiction.
+    - destruct IH as (cs & E & K & H1 & H2); [intros; apply Hc; right; assumption|].
+      pose proof (Hc k c (or_introl eq_refl)) as Hk. cbn [to_changes]. rewrite E.
+      destruct c as [st|].
+      + destruct Hk as (nm & v & En & Ev & Hv). cbn [to_change]. rewrite En, Ev.
+        exists ((k, Some (nm, v)) :: cs). cbn [map fst]. rewrite K. repeat split.
+        * intros reg c [H|H]; [inversion H; subst; exact Hv|apply H1; exact H].
+        * intros reg nm' v' [H|H]; [inversion H; subst; exists st; split; [left; reflexivity|exact En]|].
+          destruct (H2 _ _ _ H) as (st' & I' & N'). exists st'. split; [right; exact I'|exact N'].
+      + cbn [to_change]. exists ((k, None) :: cs). cbn [map fst]. rewrite K. repeat split.
+        * intros reg c [H|H]; [inversion H; subst; exact I|apply H1; exact H].
+        * intros reg nm' v' [H|H]; [inversion H|]. destruct (H2 _ _ _ H) as (st' & I' & N'). exists st'. split; [right; exact I'|exact N']. }
+  intros Hc Hother. destruct (G Hc) as (cs & E & K & H1 & H2). exists cs. repeat split; try assumption.
+  - intros r Hr. apply Hother. rewrite <- K. exact Hr.
+  - intros SO reg nm v HIn. destruct (H2 _ _ _ HIn) as (st & I' & N'). rewrite K. exact (SO reg st nm I' N').
+Qed.
+
+(* ONE instruction: its dict (no repeated key, safe origins) describes the architectural step => the tracked state
+   after _update_reg_changes describes the register file after the instruction *)
+Theorem instruction_tracking_sound l s rho0 rho rho' :
+  NoDup (map fst l) -> safe_origin_dict l -> changes_describe l rho rho' ->
+  describes s rho0 rho ->
+  exists cs, to_changes l = Some cs /\ describes (update_changes s cs) rho0 rho'.
+Proof.
+  intros ND SO CD D. destruct (to_changes_spec l rho rho' CD) as (cs & E & K & CH & SO').
+  exists cs. split; [exact E|]. apply (update_changes_describes cs s rho0 rho rho'); try assumption.
+  - rewrite K. exact ND.
+  - apply SO'. exact SO.
+Qed.
+
+(* ---------------------------------------------------------------- composition with Proofs/MemDep.v *)
+Lemma to_changes_none L : to_changes (map (fun r : string => (r, @None ostate)) L) = Some (map (fun r => (r, @None (string * Z))) L).
+Proof. induction L as [|x L IH]; [reflexivity|]. cbn [map to_changes to_change]. rewrite IH. reflexivity. Qed.
+
+(* an instruction of the table: the tracked state follows the architectural step *)
+Theorem entry_tracking_sound e :
+  entry_sound e ->
+  forall ops, matches (oe_pat e) ops ->
+  forall s rho0 rho rho',
+    describes s rho0 rho -> arch_step (oe_x86 e) (oe_mnem e) ops rho rho' ->
+    exists l cs, get_reg_changes true (pattern_dests (oe_pat e) ops) ops (Some (entry_of e)) false = RcOk l /\
+                 to_changes l = Some cs /\ describes (update_changes s cs) rho0 rho'.
+Proof.
+  intros ES ops M s rho0 rho rho' D A. destruct (ES ops M) as (l & E & SO & CD).
+  destruct (rc_keys _ _ _ _ E) as (ND & _).
+  destruct (instruction_tracking_sound l s rho0 rho rho' ND SO (CD rho rho' A) D) as (cs & Ec & D').
+  exists l, cs. repeat split; assumption.
+Qed.
+
+(* ... and therefore a store->load link found after the instruction means equal addresses *)
+Theorem entry_link_sound e :
+  entry_sound e ->
+  forall ops, matches (oe_pat e) ops ->
+  forall s rho0 rho rho',
+    describes s rho0 rho -> arch_step (oe_x86 e) (oe_mnem e) ops rho rho' ->
+    exists l cs, get_reg_changes true (pattern_dests (oe_pat e) ops) ops (Some (entry_of e)) false = RcOk l /\
+                 to_changes l = Some cs /\
+                 forall mem src, memload_one mem (update_changes s cs) src = true ->
+                                 (match m_off src with OSym => False | _ => True end) ->
+                                 addr_load rho' src = addr rho0 mem.
+Proof.
+  intros ES ops M s rho0 rho rho' D A.
+  destruct (entry_tracking_sound e ES ops M s rho0 rho rho' D A) as (l & cs & E & Ec & D').
+  exists l, cs. repeat split; try assumption. intros mem src H Hs. exact (memload_sound mem _ src rho0 rho' D' H Hs).
+Qed.
+
+(* an instruction without tracked operation and without write-back *)
+Theorem plain_tracking_sound dests ops isa s rho0 rho rho' :
+  has_operation isa = false -> forallb no_wb ops = true -> plain_step dests rho rho' -> describes s rho0 rho ->
+  exists l cs, get_reg_changes true dests ops isa false = RcOk l /\ to_changes l = Some cs /\
+               describes (update_changes s cs) rho0 rho'.
+Proof.
+  intros Hop Hpre Hstep D. destruct (rc_no_operation_sound dests ops isa rho rho' Hop Hpre Hstep) as (l & E & CD).
+  destruct (rc_keys _ _ _ _ E) as (ND & _).
+  assert (SO : safe_origin_dict l).
+  { rewrite rc_no_operation in E by assumption. inversion E; subst. intros reg st nm HIn _.
+    apply in_map_iff in HIn. destruct HIn as (? & Hx & _). discriminate. }
+  destruct (instruction_tracking_sound l s rho0 rho rho' ND SO CD D) as (cs & Ec & D').
+  exists l, cs. repeat split; assumption.
+Qed.
+
+Lemma base_only_safe_origin b st L :
+  o_name st = Some b ->
+  safe_origin_dict (map (fun r : string => (r, if String.eqb r b then Some st else None)) L).
+Proof.
+  intros Hb reg st' nm HIn Hn. apply in_map_iff in HIn. destruct HIn as (r & Hx & _). inversion Hx; subst.
+  destruct (String.eqb_spec reg b); [|discriminate]. subst. inversion H1; subst. rewrite Hb in Hn. inversion Hn. left. reflexivity.
+Qed.
+
+(* pre-indexed access [b, #k]!: the reported bump keeps the description valid *)
+Theorem preindexed_tracking_sound dests pre suf isa b k s rho0 rho rho' :
+  has_operation isa = false -> forallb no_wb pre = true -> forallb no_wb suf = true ->
+  wb_step dests b k rho rho' -> describes s rho0 rho ->
+  exists l cs, get_reg_changes true dests (pre ++ IMem (Some b) (OffImm (Some k)) true PostFalse :: suf) isa false = RcOk l /\
+               to_changes l = Some cs /\ describes (update_changes s cs) rho0 rho'.
+Proof.
+  intros Hop Hpre Hsuf Hstep D.
+  destruct (rc_preindexed_sound dests pre suf isa b k rho rho' Hop Hpre Hsuf Hstep) as (l & E & CD).
+  destruct (rc_keys _ _ _ _ E) as (ND & _).
+  assert (SO : safe_origin_dict l).
+  { rewrite rc_preindexed in E by assumption. inversion E; subst. apply base_only_safe_origin. reflexivity. }
+  destruct (instruction_tracking_sound l s rho0 rho rho' ND SO CD D) as (cs & Ec & D').
+  exists l, cs. repeat split; assumption.
+Qed.
+
+(* post-indexed access [b], #v / [b], xm: the two dicts of the scan -- get_reg_changes(..) applied before is_memload looks at
+   the line, get_reg_changes(.., only_postindexed=True) after it -- follow the two architectural steps: after the first
+   dict the tracked state describes the register file at the access (base not yet bumped), after the second the final one *)
+Theorem postindexed_tracking_sound dests pre suf isa b off p s rho0 rho rho_mid rho' :
+  let ops := (pre ++ IMem (Some b) off false p :: suf)%list in
+  has_operation isa = false -> forallb no_wb pre = true -> forallb no_wb suf = true -> is_postdict p = true ->
+  access_step dests b rho rho_mid -> bump_step b p rho_mid rho' -> describes s rho0 rho ->
+  exists l cs lp cp,
+    get_reg_changes true dests ops isa false = RcOk l /\ to_changes l = Some cs /\
+    get_reg_changes true dests ops isa true = RcOk lp /\ to_changes lp = Some cp /\
+    describes (update_changes s cs) rho0 rho_mid /\
+    describes (update_changes (update_changes s cs) cp) rho0 rho'.
+Proof.
+  intros ops Hop Hpre Hsuf Hp (Hb & Hother) (Hrest & Hbump) D.
+  pose proof (rc_postindexed_main dests pre suf isa b off p Hop Hpre Hsuf Hp) as E. fold ops in E.
+  assert (CD : changes_describe (map (fun r => (r, if String.eqb r b then Some (mkO (Some b) (Some 0)) else None)) (dedup [] dests)) rho rho_mid).
+  { split.
+    - intros reg c HIn. apply in_map_iff in HIn. destruct HIn as (r & Ex & _). inversion Ex; subst.
+      destruct (String.eqb_spec reg b); [subst|exact I]. eexists _, _. cbn. repeat split. lia.
+    - intros r Hr. apply Hother. intros HIn. apply Hr. rewrite map_map. cbn [fst]. rewrite map_id. apply dedup_spec. cbn. tauto. }
+  destruct (rc_keys _ _ _ _ E) as (ND & _).
+  destruct (instruction_tracking_sound _ s rho0 rho rho_mid ND (base_only_safe_origin b (mkO (Some b) (Some 0)) _ eq_refl) CD D) as (cs & Ec & D1).
+  assert (Hnp : forallb no_postdict pre = true).
+  { clear -Hpre. induction pre as [|o pre IH]; [reflexivity|]. cbn [forallb] in *. apply andb_true_iff in Hpre. destruct Hpre as [Ho H].
+    rewrite IH by exact H. rewrite andb_true_r. destruct o as [| |[?|] ? [|] [|?|]|]; try discriminate; reflexivity. }
+  pose proof (rc_postindexed dests pre suf isa b off false p Hnp Hp) as Ep. fold ops in Ep.
+  eexists _, cs, (post_dict b p), (match p with PostImm v => [(b, Some (b, v))] | _ => [(b, None)] end).
+  split; [exact E|]. split; [exact Ec|]. split; [exact Ep|]. split; [destruct p; reflexivity|]. split; [exact D1|].
+  assert (A : apply_change rho_mid b (match p with PostImm v => Some (b, v) | _ => None end) rho').
+  { split; [exact Hrest|]. destruct p; try exact I. exact Hbump. }
+  pose proof (update_one_describes _ rho0 rho_mid rho' b _ D1 A) as D2.
+  destruct p; exact D2.
+Qed.
+
+(* ---------------------------------------------------------------- refutation: a REGISTER operand's value used as an addend *)
+(* The state of a register operand is {name: itself, value: 0} ("unchanged relative to itself"); an operation that adds or
+   subtracts such a 'value' treats the register's content as the integer 0.  These are the entries x86 SBB gpr,gpr and
+   AArch64 ADDS/SUBS reg,reg,reg as shipped before the fix (the regenerated table must not contain such an entry:
+   PropsGen/C06ops.v).  Witness replayed on the implementation: `movq %rdx,(%rbx); sbbq %rax,%rbx; movq (%rbx),%rsi`. *)
+Definition sbb_regreg_entry : op_entry :=
+  mkOp true "SBB" 0 [mkP KReg true false; mkP KReg true true] [SAugValue 2 false (VVal 1)] "op2['value'] -= (op1['value'])".
+Definition adds_regreg_entry : op_entry :=
+  mkOp false "ADDS" 0 [mkP KReg false true; mkP KReg true false; mkP KReg true false]
+       [SSetValue 1 (VAdd (VVal 2) (VVal 3)); SSetName 1 2] "op1['value'] = op2['value'] + op3['value']; op1['name'] = op2['name']".
+
+Theorem register_addend_refuted_x86 : ~ entry_sound sbb_regreg_entry.
+Proof.
+  intros ES. destruct (ES [IReg "rax"; IReg "rbx"]) as (l & E & _ & CD); [cbn; tauto|].
+  vm_compute in E. inversion E; subst; clear E.
+  set (rho := fun r : string => if r =? "rax" then 1 else 0).
+  set (rho' := fun r : string => if r =? "rax" then 1 else if r =? "rbx" then -1 else 0).
+  assert (A : arch_step true "SBB" [IReg "rax"; IReg "rbx"] rho rho').
+  { exists 0, "rbx", (-1). repeat split; [left; reflexivity|].
+    intros r Hr. unfold rho', rho. destruct (r =? "rax"); [reflexivity|]. destruct (String.eqb_spec r "rbx"); [contradiction|reflexivity]. }
+  destruct (CD rho rho' A) as (Hc & _). specialize (Hc "rbx" _ (or_introl eq_refl)).
+  destruct Hc as (nm & v & En & Ev & Hv). cbn in En, Ev. inversion En; inversion Ev; subst. vm_compute in Hv. discriminate.
+Qed.
+
+Theorem register_addend_refuted_a64 : ~ entry_sound adds_regreg_entry.
+Proof.
+  intros ES. destruct (ES [IReg "x1"; IReg "x2"; IReg "x3"]) as (l & E & _ & CD); [cbn; tauto|].
+  vm_compute in E. inversion E; subst; clear E.
+  set (rho := fun r : string => if r =? "x3" then 8 else 0).
+  set (rho' := fun r : string => if r =? "x3" then 8 else if r =? "x1" then 8 else 0).
+  assert (A : arch_step false "ADDS" [IReg "x1"; IReg "x2"; IReg "x3"] rho rho').
+  { exists 0, "x1", 8. repeat split; [left; reflexivity|].
+    intros r Hr. unfold rho', rho. destruct (r =? "x3"); [reflexivity|]. destruct (String.eqb_spec r "x1"); [contradiction|reflexivity]. }
+  destruct (CD rho rho' A) as (Hc & _). specialize (Hc "x1" _ (or_introl eq_refl)).
+  destruct Hc as (nm & v & En & Ev & Hv). cbn in En, Ev. inversion En; inversion Ev; subst. vm_compute in Hv. discriminate.
+Qed.
+
+(* ---------------------------------------------------------------- non-vacuity *)
+Definition canon_names : list string := ["ra"; "rb"; "rc"; "rd"; "re"; "rf"; "rg"; "rh"].
+Fixpoint canon_ops (i : nat) (pat : list pat1) : list iop :=
+  match pat with
+  | [] => []
+  | p :: r => (match p_kind p with
+               | KReg => IReg (nth i canon_names "rz")
+               | KImm => IImm (Some 7)
+               | KMem => IMem None OffNone false PostFalse
+               end) :: canon_ops (S i) r
+  end.
+Lemma canon_matches pat : forall i, matches pat (canon_ops i pat).
+Proof. induction pat as [|p pat IH]; intros i; cbn; [exact I|]. split; [destruct (p_kind p); exact I|apply IH]. Qed.
+
+Definition inhabited_b (e : op_entry) : bool :=
+  match arch_effect (oe_x86 e) (oe_mnem e) (canon_ops 0 (oe_pat e)) (fun _ => 0) 0 with Some _ => true | None => false end.
+
+Lemma inhabited_b_sound e : inhabited_b e = true -> entry_inhabited e.
+Proof.
+  unfold inhabited_b. destruct (arch_effect (oe_x86 e) (oe_mnem e) (canon_ops 0 (oe_pat e)) (fun _ => 0) 0) as [[d v]|] eqn:E; [|discriminate].
+  intros _. exists (canon_ops 0 (oe_pat e)), (fun _ => 0), (fun r => if r =? d then v else 0).
+  split; [apply canon_matches|]. exists 0, d, v. split; [left; reflexivity|]. split; [exact E|]. split.
+  - rewrite String.eqb_refl. reflexivity.
+  - intros r Hr. destruct (String.eqb_spec r d); [contradiction|reflexivity].
+Qed.
+
+Example arch_step_add_nonvacuous :
+  arch_step true "ADD" [IImm (Some 8); IReg "rax"] (fun _ => 5) (fun r => if r =? "rax" then 13 else 5).
+Proof.
+  exists 0, "rax", 13. repeat split; [left; reflexivity|].
+  intros r Hr. destruct (String.eqb_spec r "rax"); [contradiction|reflexivity].
+Qed.
+
+(* the shipped shapes, proved here once by hand-copied entries (the regenerated table is proved in PropsGen/C06ops.v) *)
+Example add_imm_x86_sound :
+  entry_sound (mkOp true "ADD" 0 [mkP KImm true false; mkP KReg true true] [SAugValue 2 true (VVal 1)] "op2['value'] += op1['value']").
+Proof. unfold entry_sound; cbn [oe_pat oe_x86 oe_mnem]. solve_entry. Qed.
+
+Example mov_x86_sound :
+  entry_sound (mkOp true "MOV" 0 [mkP KReg true false; mkP KReg false true] [SSetName 2 1; SSetValue 2 (VVal 1)]
+                    "op2['name'] = op1['name']; op2['value'] = op1['value']").
+Proof. unfold entry_sound; cbn [oe_pat oe_x86 oe_mnem]. solve_entry. Qed.
+
+(* add x1, x1, #4 and add x1, x2, #4 alike: all register choices, including the same register twice *)
+Example add_imm_a64_sound :
+  entry_sound (mkOp false "ADD" 0 [mkP KReg false true; mkP KReg true false; mkP KImm true false]
+                    [SSetValue 1 (VAdd (VVal 2) (VVal 3)); SSetName 1 2] "op1['value'] = op2['value'] + op3['value']; op1['name'] = op2['name']").
+Proof. unfold entry_sound; cbn [oe_pat oe_x86 oe_mnem]. solve_entry. Qed.
+
+(* dropping the copy of the name is unsound (add x1, x2, #4 would be reported as x1 + 4) *)
+Example add_imm_a64_without_name_copy_refuted :
+  ~ entry_sound (mkOp false "ADD" 0 [mkP KReg false true; mkP KReg true false; mkP KImm true false]
+                      [SSetValue 1 (VAdd (VVal 2) (VVal 3))] "op1['value'] = op2['value'] + op3['value']").
+Proof.
+  intros ES. destruct (ES [IReg "x1"; IReg "x2"; IImm (Some 4)]) as (l & E & _ & CD); [cbn; tauto|].
+  vm_compute in E. inversion E; subst; clear E.
+  set (rho := fun r : string => if r =? "x2" then 100 else 0).
+  set (rho' := fun r : string => if r =? "x2" then 100 else if r =? "x1" then 104 else 0).
+  assert (A : arch_step false "ADD" [IReg "x1"; IReg "x2"; IImm (Some 4)] rho rho').
+  { exists 0, "x1", 104. repeat split; [left; reflexivity|].
+    intros r Hr. unfold rho', rho. destruct (r =? "x2"); [reflexivity|]. destruct (String.eqb_spec r "x1"); [contradiction|reflexivity]. }
+  destruct (CD rho rho' A) as (Hc & _). specialize (Hc "x1" _ (or_introl eq_refl)).
+  destruct Hc as (nm & v & En & Ev & Hv). cbn in En, Ev. inversion En; inversion Ev; subst. vm_compute in Hv. discriminate.
+Qed.
+
+(* the pre-0bfe782 rule (the LAST operand naming a register wins) is what made add x1, x1, #4 lose its increment:
+   with the destination flag consulted, the written operand's state is reported *)
+Example same_register_source_and_destination :
+  get_reg_changes true ["x1"] [IReg "x1"; IReg "x1"; IImm (Some 4)]
+                  (Some (mkRC [true; false; false] (Some [SSetValue 1 (VAdd (VVal 2) (VVal 3)); SSetName 1 2]))) false
+  = RcOk [("x1", Some (mkO (Some "x1") (Some 4)))].
+Proof. vm_compute. reflexivity. Qed.
+
+(* Python exceptions are explicit: an operation reading a memory operand's state raises NameError *)
+Example memory_operand_has_no_state :
+  get_reg_changes true ["rax"] [IMem (Some "rbx") OffNone false PostFalse; IReg "rax"]
+                  (Some (mkRC [false; true] (Some [SAugValue 2 true (VVal 1)]))) false = RcErr ENameError.
+Proof. vm_compute. reflexivity. Qed.
